@@ -85,7 +85,7 @@ class BaseSubProjectTask(BaseTask):
             if unit_timedelta is not None
             else datetime.timedelta(minutes=1)
         )
-        self.read_json_fil_or_not = read_json_file
+        self.read_json_file = read_json_file
         self.remove_absence_time_list = remove_absence_time_list
         super().__init__(
             name=name,
